@@ -108,6 +108,41 @@ template <class B> inline bool box_union_is_box(const B& a, const B& b) {
   return !oiv_gap(x[kd], y[kd]) && !oiv_gap(y[kd], x[kd]);
 }
 
+// Soundness of the relational transformers on probe points: candidate values for the transformed variable are tried
+// (the bounds themselves, a midpoint, neighbours, the old value); every witness found must be in the result.
+inline std::vector<mpq_class> cand_values(const mpq_class& L, const mpq_class& U, const mpq_class& old) {
+  std::vector<mpq_class> v = { L, U, (L + U) / 2, old, L - 1, U + 1, L + mpq_class(1, 2), U - mpq_class(1, 2) };
+  for (auto& q : v) q.canonicalize();
+  return v;
+}
+inline bool rel_holds(PPL::Relation_Symbol rs, const mpq_class& a, const mpq_class& b) {
+  switch (rs) { case PPL::LESS_THAN: return a < b; case PPL::LESS_OR_EQUAL: return a <= b; case PPL::EQUAL: return a == b; case PPL::GREATER_OR_EQUAL: return a >= b; case PPL::GREATER_THAN: return a > b; default: return false; }
+}
+// image: for q in pre and v' with cond(q, v'): q[var := v'] must be in post
+template <class D, class COND> inline void must_contain_image(const char* what, const D& pre, const D& post, dimension_type var, COND cond) {
+  dimension_type n = post.space_dimension(); auto& pv = g_def.probes->of(n); D a(pre), b(post);
+  for (size_t i = 0; i < pv.size(); ++i) { if (!member_of(a, pv[i])) continue;
+    for (const mpq_class& v : cond.candidates(pv[i])) { if (!cond.ok(pv[i], v)) continue; QPoint q = pv[i]; q[var] = v;
+      if (!member_of(b, q)) { def_violation(what, "point " + oracle::show(q) + " is the image of member " + oracle::show(pv[i]) + " but is not in the result"); return; } } }
+}
+// preimage: for p and v' with cond(p, v') and p[var := v'] in pre: p must be in post
+template <class D, class COND> inline void must_contain_preimage(const char* what, const D& pre, const D& post, dimension_type var, COND cond) {
+  dimension_type n = post.space_dimension(); auto& pv = g_def.probes->of(n); D a(pre), b(post);
+  for (size_t i = 0; i < pv.size(); ++i) {
+    for (const mpq_class& v : cond.candidates(pv[i])) { if (!cond.ok(pv[i], v)) continue; QPoint q = pv[i]; q[var] = v; if (!member_of(a, q)) continue;
+      if (!member_of(b, pv[i])) { def_violation(what, "point " + oracle::show(pv[i]) + " is related to member " + oracle::show(q) + " but is not in the result"); return; }
+      break; } }
+}
+struct BoundedCond { Linear_Expression lb, ub; mpq_class den; dimension_type var;
+  std::vector<mpq_class> candidates(const QPoint& p) const { return cand_values(eval_le(lb, p) / den, eval_le(ub, p) / den, p[var]); }
+  bool ok(const QPoint& p, const mpq_class& v) const { mpq_class L = eval_le(lb, p) / den, U = eval_le(ub, p) / den; return L <= v && v <= U; } };
+struct GeneralizedCond { Linear_Expression le; mpq_class den; PPL::Relation_Symbol rs; dimension_type var;
+  std::vector<mpq_class> candidates(const QPoint& p) const { mpq_class E = eval_le(le, p) / den; return cand_values(E, E, p[var]); }
+  bool ok(const QPoint& p, const mpq_class& v) const { return rel_holds(rs, v, eval_le(le, p) / den); } };
+
+// domains over floating point numbers round differently along different code paths: agreement between overloads is
+// not required of them (specialised to true in obj_float.cc)
+template <class D> struct Inexact { static constexpr bool value = false; };
 template <class D, bool IS_MAX> inline std::function<std::string()> with_point_call(Env<D>& e, Cur& c) {
   D* x = e.o[0]; Linear_Expression le = c.expr(x->space_dimension());
   return [x, le]() { Coefficient n1, d1, n2, d2; bool m1 = false, m2 = false; Generator g = Generator::point();
@@ -116,7 +151,7 @@ template <class D, bool IS_MAX> inline std::function<std::string()> with_point_c
     b2 = IS_MAX ? x->maximize(le, n2, d2, m2, g) : x->minimize(le, n2, d2, m2, g);
     FaultPause fp;
     const char* nm = IS_MAX ? "maximize" : "minimize";
-    if (b1 != b2 || (b1 && (n1 * d2 != n2 * d1 || m1 != m2))) { if (g_def.ctx) g_def.ctx->violation(g_def.prop.empty() ? "C01" : g_def.prop, "with-point-differs", g_def.dom + "|" + nm + "_with_point|-", std::string(nm) + " with and without the point argument disagree"); return std::string("?"); }
+    if (!Inexact<D>::value && (b1 != b2 || (b1 && (n1 * d2 != n2 * d1 || m1 != m2)))) { if (g_def.ctx) g_def.ctx->violation(g_def.prop.empty() ? "C01" : g_def.prop, "with-point-differs", g_def.dom + "|" + nm + "_with_point|-", std::string(nm) + " with and without the point argument disagree"); return std::string("?"); }
     if (!b2) return std::string("F");
     mpq_class q(n2, d2); q.canonicalize();
     // (products return the optimising point of ONE component, which need not lie in the other: only the value is judged there)
@@ -362,12 +397,18 @@ template <class D> void add_common_ops(ObjHarness<D>& H) {
       GENF { op.a.push_back(r.range(0, 5)); op.a.push_back(r.range(0, 4)); gen_expr(r, op, W, false); op.a.push_back(r.chance(3) ? 0 : r.range(-3, 3)); },
       PREPF { D* x = e.o[0]; dimension_type n = x->space_dimension(); if (n == 0) return skip_call();
               Variable v((dimension_type) c.mod((long) n)); PPL::Relation_Symbol rs = relsym(c.next()); Linear_Expression le = c.expr(n); Coefficient den = coef(c.next());
-              return [x, v, rs, le, den]() { x->generalized_affine_image(v, rs, le, den); return std::string(); }; } });
+              return [x, v, rs, le, den]() { std::shared_ptr<D> pre; if (g_def.active && den != 0) { FaultPause fp; pre.reset(new D(*x)); }
+                x->generalized_affine_image(v, rs, le, den);
+                if (pre) { FaultPause fp; GeneralizedCond gc{ le, mpq_class(den), rs, v.id() }; must_contain_image("def-generalized_affine_image", *pre, *x, v.id(), gc); }
+                return std::string(); }; } });
     H.add({ "generalized_affine_preimage", 1, F_VAL | F_FAULT, 5,
       GENF { op.a.push_back(r.range(0, 5)); op.a.push_back(r.range(0, 4)); gen_expr(r, op, W, false); op.a.push_back(r.chance(3) ? 0 : r.range(-3, 3)); },
       PREPF { D* x = e.o[0]; dimension_type n = x->space_dimension(); if (n == 0) return skip_call();
               Variable v((dimension_type) c.mod((long) n)); PPL::Relation_Symbol rs = relsym(c.next()); Linear_Expression le = c.expr(n); Coefficient den = coef(c.next());
-              return [x, v, rs, le, den]() { x->generalized_affine_preimage(v, rs, le, den); return std::string(); }; } });
+              return [x, v, rs, le, den]() { std::shared_ptr<D> pre; if (g_def.active && den != 0) { FaultPause fp; pre.reset(new D(*x)); }
+                x->generalized_affine_preimage(v, rs, le, den);
+                if (pre) { FaultPause fp; GeneralizedCond gc{ le, mpq_class(den), rs, v.id() }; must_contain_preimage("def-generalized_affine_preimage", *pre, *x, v.id(), gc); }
+                return std::string(); }; } });
     H.add({ "generalized_affine_image_lr", 1, F_VAL | F_FAULT, 3,
       GENF { op.a.push_back(r.range(0, 4)); gen_expr(r, op, W, false); gen_expr(r, op, W, false); },
       PREPF { D* x = e.o[0]; dimension_type n = x->space_dimension(); PPL::Relation_Symbol rs = relsym(c.next());
@@ -405,12 +446,18 @@ template <class D> void add_common_ops(ObjHarness<D>& H) {
     GENF { op.a.push_back(r.range(0, 5)); gen_expr(r, op, W, false); gen_expr(r, op, W, false); op.a.push_back(r.chance(3) ? 0 : r.range(-3, 3)); },
     PREPF { D* x = e.o[0]; dimension_type n = x->space_dimension(); if (n == 0) return skip_call();
             Variable v((dimension_type) c.mod((long) n)); Linear_Expression lb = c.expr(n), ub = c.expr(n); Coefficient den = coef(c.next());
-            return [x, v, lb, ub, den]() { x->bounded_affine_image(v, lb, ub, den); return std::string(); }; } });
+            return [x, v, lb, ub, den]() { std::shared_ptr<D> pre; if (g_def.active && den != 0) { FaultPause fp; pre.reset(new D(*x)); }
+              x->bounded_affine_image(v, lb, ub, den);
+              if (pre) { FaultPause fp; BoundedCond bc{ lb, ub, mpq_class(den), v.id() }; must_contain_image("def-bounded_affine_image", *pre, *x, v.id(), bc); }
+              return std::string(); }; } });
   H.add({ "bounded_affine_preimage", 1, F_VAL | F_FAULT, 3,
     GENF { op.a.push_back(r.range(0, 5)); gen_expr(r, op, W, false); gen_expr(r, op, W, false); op.a.push_back(r.chance(3) ? 0 : r.range(-3, 3)); },
     PREPF { D* x = e.o[0]; dimension_type n = x->space_dimension(); if (n == 0) return skip_call();
             Variable v((dimension_type) c.mod((long) n)); Linear_Expression lb = c.expr(n), ub = c.expr(n); Coefficient den = coef(c.next());
-            return [x, v, lb, ub, den]() { x->bounded_affine_preimage(v, lb, ub, den); return std::string(); }; } });
+            return [x, v, lb, ub, den]() { std::shared_ptr<D> pre; if (g_def.active && den != 0) { FaultPause fp; pre.reset(new D(*x)); }
+              x->bounded_affine_preimage(v, lb, ub, den);
+              if (pre) { FaultPause fp; BoundedCond bc{ lb, ub, mpq_class(den), v.id() }; must_contain_preimage("def-bounded_affine_preimage", *pre, *x, v.id(), bc); }
+              return std::string(); }; } });
   H.add({ "unconstrain", 1, F_VAL | F_FAULT, 3,
     GENF { op.a.push_back(r.range(0, 5)); },
     PREPF { D* x = e.o[0]; dimension_type n = x->space_dimension(); if (n == 0) return skip_call();
